@@ -253,6 +253,10 @@ def enumerate_ops(src: str, *, nk=3, nks=2, forms=('src', 'ast', 'fst'), opts=({
         if want('docstr') and ncls in ('Module', 'FunctionDef', 'AsyncFunctionDef', 'ClassDef'):
             for text in ('doc', 'two\nlines', None):
                 yield {'op': 'put_docstr', 'path': p, 'text': text}
+        if kinds is not None and 'src_tail' in kinds and isinstance(node, ast.stmt) and not hasattr(node, 'body') and not hasattr(node, 'cases'):
+            # the text behind a simple statement up to the end of its line, rewritten with put_src(action=None) called on that statement
+            for text in ('  # tail put as source', '', '   '):
+                yield {'op': 'put_src_tail', 'path': p, 'text': text}
         if want('line_comment') and isinstance(node, ast.stmt):
             for text in lc_texts:
                 yield {'op': 'put_line_comment', 'path': p, 'text': text}
@@ -317,6 +321,14 @@ def apply(fst, root, op):
         return n.put_docstr(op['text'], **o)
     if k == 'put_line_comment':
         return n.put_line_comment(op['text'], op.get('field'))
+    if k == 'put_src_tail':
+        ln, col = n.end_ln, n.end_col
+        line = root.lines[ln]
+        if line[col:].lstrip()[:1] not in ('', '#'):
+            raise ValueError('something else follows the statement on its line')
+        if line[col:] == op['text']:
+            raise ValueError('nothing to change')
+        return n.put_src(op['text'], ln, col, ln, len(line), action=None)
     raise ValueError(k)
 
 
